@@ -177,6 +177,8 @@ def expected(col, kind, value, opts, present=True):
             if fam == 'bool':
                 nums = [int(v) for v in nums]
             ext = min(nums) if is_min else max(nums)
+            if col['kind'] == 'float32' and _f32_tie(value, [ext]):
+                return UNSPEC        # bound not representable in float32 and within rounding of the extreme: numpy's promotion decides
             return _bound_check(ext, value, precision or 'fuzzy', eps, is_min)
         if fam == 'date':
             if not isinstance(value, str):
@@ -322,6 +324,23 @@ def expected_discovery(col, nrows, max_categories=20):
 # ---------------------------------------------------------------------------
 # Record-level meaning (C06): which records violate a failing constraint
 # ---------------------------------------------------------------------------
+def _f32_tie(bound, values):
+    import struct
+    try:
+        b32 = struct.unpack('f', struct.pack('f', float(bound)))[0]
+    except (OverflowError, struct.error, TypeError, ValueError):
+        return False
+    if b32 == bound:
+        return False
+    for v in values:
+        try:
+            if float(v) == b32:
+                return True
+        except (TypeError, ValueError):
+            pass
+    return False
+
+
 def row_flags(col, kind, value, opts):
     """For a constraint that FAILED on this column: list with one entry per record -
     False = the record violates it, True = it does not, None = null value (flagged false
@@ -340,6 +359,9 @@ def row_flags(col, kind, value, opts):
     if kind in ('min', 'max') and col['kind'] == 'float32' and isinstance(value, (int, float)) \
             and not isinstance(value, bool) and abs(value) > 3.4e38:
         return None     # bound outside the column's own number range: element-wise comparison is numpy's business
+    if kind in ('min', 'max') and col['kind'] == 'float32' and isinstance(value, (int, float)) and not isinstance(value, bool) \
+            and _f32_tie(value, [v for v in vals if v is not None]):
+        return None     # bound not representable in float32 and equal, once rounded to float32, to a value of the column
     if kind == 'max_nulls':
         return [v is not None for v in vals]
     if kind == 'no_duplicates':
